@@ -59,6 +59,20 @@ type Sess struct {
 	// Entry (outcome CancelledBeforeEntry): the state of the context handed to Execute: "" already
 	// cancelled | deadline (a deadline that has already passed)
 	Entry string `json:"entry,omitempty"`
+	// outcome FailedRetryable: a STARTED Run fails with an error of class Err (comm | tss | subset |
+	// coordinator).  How: "" the error the real Run returns after it began is replaced by one of that
+	// class | bcast (the real first protocol message cannot be broadcast: a real CommunicationError) |
+	// selfless (ECDSA keygen on a host that does not list itself: a real tss.Error from Party.Start).
+	// Answer: the peers answer the initiate messages of a retry (signing kinds; the other kinds are
+	// never retried and always answered)
+	Err    string `json:"err,omitempty"`
+	How    string `json:"how,omitempty"`
+	Answer bool   `json:"answer,omitempty"`
+	// outcomes PanicBeforeStart (At: validcoordinators | ready | startparams | run-early),
+	// PanicInRunLate (At: run-late | goexit | real - the process's own Run panics: FROST resharing of a
+	// share-less relayer that is sent "{}", ECDSA resharing of a share-less relayer that is sent an old
+	// subset of unknown peers), PanicAfterRun (Retryable() panics after Run failed)
+	At string `json:"at,omitempty"`
 }
 
 // Stress: the REAL store object under contention (stress.go)
@@ -87,6 +101,8 @@ type Obs struct {
 	// stress cases: pairs completed per worker and the final value of the shared counter
 	Dones   []int `json:"dones,omitempty"`
 	Counter int   `json:"counter,omitempty"`
+	// how the sessions with a failing / panicking process ended (for the record, not judged)
+	Ends []string `json:"ends,omitempty"`
 	Real   int      `json:"real"` // 0 not replayed, 1 completed + lock free, 2 fatal unlock, 3 lock not free (a constructor or the final probe blocked)
 	Note   string   `json:"note,omitempty"`
 }
@@ -131,6 +147,7 @@ type party struct {
 	epath, fpath string
 	// the state the harness last put each file in (prepare)
 	eState, fState string
+	ends           []string
 }
 
 func (p *party) cleanup() {
@@ -319,6 +336,12 @@ func (p *party) mk(kind, sid string, threshold int, tweaks ...string) (tss.TssPr
 
 // mkWith: the real constructor of `kind` on the given stores; tag marks the process's ledger entries.
 func (p *party) mkWith(es ecdsaStore, fs frostStore, tag, kind, sid string, threshold int, tweaks ...string) (tss.TssProcess, error) {
+	return p.mkOn(p.host, p.comm, es, fs, tag, kind, sid, threshold, tweaks...)
+}
+
+// mkOn: the same on another host / communication (a host that does not list itself, a communication
+// whose protocol broadcasts fail); the coordinator keeps the party's own.
+func (p *party) mkOn(h *tssfakes.FakeHost, cm comm.Communication, es ecdsaStore, fs frostStore, tag, kind, sid string, threshold int, tweaks ...string) (tss.TssProcess, error) {
 	tweak := tweak
 	if len(tweaks) > 0 {
 		switch tweaks[0] {
@@ -332,20 +355,20 @@ func (p *party) mkWith(es ecdsaStore, fs frostStore, tag, kind, sid string, thre
 	var err error
 	switch kind {
 	case "EcdsaKeygen":
-		proc = ekeygen.NewKeygen(sid, threshold, p.host, p.comm, es)
+		proc = ekeygen.NewKeygen(sid, threshold, h, cm, es)
 	case "FrostKeygen":
-		proc = fkeygen.NewKeygen(sid, threshold, p.host, p.comm, fs)
+		proc = fkeygen.NewKeygen(sid, threshold, h, cm, fs)
 	case "EcdsaResharing":
-		proc = eresharing.NewResharing(sid, threshold, p.host, p.comm, es)
+		proc = eresharing.NewResharing(sid, threshold, h, cm, es)
 	case "FrostResharing":
-		proc = fresharing.NewResharing(sid, threshold, p.host, p.comm, fs)
+		proc = fresharing.NewResharing(sid, threshold, h, cm, fs)
 	case "EcdsaSigning":
 		var s *esigning.Signing
-		s, err = esigning.NewSigning(big.NewInt(0x1234567), "m"+sid, sid, p.host, p.comm, es)
+		s, err = esigning.NewSigning(big.NewInt(0x1234567), "m"+sid, sid, h, cm, es)
 		proc = s
 	case "FrostSigning":
 		var s *fsigning.Signing
-		s, err = fsigning.NewSigning(1, []byte("Message"), tweak, "m"+sid, sid, p.host, p.comm, fs)
+		s, err = fsigning.NewSigning(1, []byte("Message"), tweak, "m"+sid, sid, h, cm, fs)
 		proc = s
 	default:
 		panic("kind " + kind)
@@ -445,8 +468,12 @@ var errHeld = fmt.Errorf("constructor blocked on the key-share lock")
 // construct runs the real constructor; on the real stores (child process) with a bounded wait,
 // because a constructor blocks for ever on a mutex a predecessor leaked.
 func (p *party) construct(s Sess, sid string, threshold int) (tss.TssProcess, error) {
+	return p.constructWith(func() (tss.TssProcess, error) { return p.mk(s.Kind, sid, threshold, s.Tweak) })
+}
+
+func (p *party) constructWith(mk func() (tss.TssProcess, error)) (tss.TssProcess, error) {
 	if !p.real {
-		return p.mk(s.Kind, sid, threshold, s.Tweak)
+		return mk()
 	}
 	type res struct {
 		proc tss.TssProcess
@@ -454,7 +481,7 @@ func (p *party) construct(s Sess, sid string, threshold int) (tss.TssProcess, er
 	}
 	ch := make(chan res, 1)
 	go func() {
-		proc, err := p.mk(s.Kind, sid, threshold, s.Tweak)
+		proc, err := mk()
 		ch <- res{proc, err}
 	}()
 	select {
@@ -467,6 +494,9 @@ func (p *party) construct(s Sess, sid string, threshold int) (tss.TssProcess, er
 
 // session drives one session of party p (the other relayers are played by the harness).
 func (p *party) session(s Sess) string {
+	if abnormalOutcome(s.Outcome) {
+		return p.sessionAbnormal(s)
+	}
 	if s.Share != "" && resharing(s.Kind) {
 		s.Role = "peer" // see rolesIn
 	}
@@ -568,6 +598,14 @@ func (p *party) session(s Sess) string {
 		cancel()
 	case "StartMalformed":
 		deliverStart([]byte("\x00 not a start message"))
+		// (an implementation may go on waiting for a well-formed start message instead of giving the
+		// session up: then the caller gives up - either way Run is never called)
+		select {
+		case e := <-done:
+			done <- e
+		case <-time.After(time.Second):
+			cancel()
+		}
 	case "ParamsRejected":
 		deliverStart(startMsg(badParams(s.Kind)))
 	case "RanFailed":
@@ -700,6 +738,7 @@ func succeedFuture(kind string) Obs {
 	for _, k := range prefetch {
 		startFuture(k)
 	}
+	startSlow()
 	ch := startFuture(kind)
 	futMu.Unlock()
 	o := <-ch
@@ -728,11 +767,15 @@ func run(c Case) Obs {
 	if c.Stress != nil {
 		return runStress(c)
 	}
+	if len(c.Sessions) == 1 && slowSess(c.Sessions[0]) {
+		return slowFuture(c)
+	}
 	if c.Contention {
 		futMu.Lock()
 		for _, k := range prefetch {
 			startFuture(k)
 		}
+		startSlow()
 		futMu.Unlock()
 		return runContention(c)
 	}
@@ -742,6 +785,7 @@ func run(c Case) Obs {
 		o.Note += p.session(s)
 	}
 	o.Ledger = lockEvents(p.led)
+	o.Ends = p.ends
 	if c.Real && heldReplays < 4 {
 		// (after a few replays that ended with the real mutex held the point is made: each of them
 		// costs seconds of waiting for a lock that does not come back)
@@ -828,6 +872,7 @@ func child(js string) {
 
 var kinds = []string{"EcdsaKeygen", "FrostKeygen", "EcdsaResharing", "FrostResharing", "EcdsaSigning", "FrostSigning"}
 var cheap = []string{"NeverSilent", "NeverTimeout", "NeverCancelled", "StartMalformed", "ParamsRejected", "RanFailed", "Refused", "Rerun", "CancelledBeforeEntry"}
+var seqOutcomes = append(append([]string{}, cheap...), "FailedRetryable", "PanicBeforeStart", "PanicInRunLate", "PanicAfterRun")
 var entries = []string{"", "deadline"}
 var badShares = []string{"missing", "corrupt", "unreadable"}
 var seconds = []string{"", "one", "subset"}
@@ -950,6 +995,8 @@ func gen(r *vgen.Rng, tier string) []Case {
 	for _, tw := range []string{"nothex", "short"} {
 		out = append(out, Case{Sessions: []Sess{{Kind: "FrostSigning", Outcome: "ConstructorFails", Role: "coord", Tweak: tw}}, Real: true})
 	}
+	// started runs that fail with an error of every retryable class; panics (abnormal.go)
+	out = append(out, genAbnormal(r, tier)...)
 	// sessions that overlap on one store whose Lock really blocks (conc.go); they come first and the
 	// slow complete runs are started in the background when the first of them is reached
 	out = append(genContention(r, tier), out...)
@@ -961,7 +1008,7 @@ func gen(r *vgen.Rng, tier string) []Case {
 	for i := 0; i < nseq; i++ {
 		var ss []Sess
 		for n := r.Range(2, 7); len(ss) < n; {
-			k, oc := vgen.Pick(r, kinds), vgen.Pick(r, cheap)
+			k, oc := vgen.Pick(r, kinds), vgen.Pick(r, seqOutcomes)
 			sh := ""
 			if r.Intn(3) == 0 {
 				sh = vgen.Pick(r, badShares)
@@ -978,6 +1025,10 @@ func gen(r *vgen.Rng, tier string) []Case {
 			}
 			if oc == "CancelledBeforeEntry" {
 				en = vgen.Pick(r, entries)
+			}
+			if abnormalOutcome(oc) {
+				ss = append(ss, fillAbnormal(r, Sess{Kind: k, Outcome: oc, Share: sh}))
+				continue
 			}
 			ss = append(ss, Sess{Kind: k, Outcome: oc, Role: vgen.Pick(r, rolesIn(k, oc, sh)), Share: sh, Second: sec, Entry: en})
 		}
@@ -1029,12 +1080,16 @@ func coq(c Case, o Obs) string {
 		return "Contention " + vgen.ListOf(c.Sessions, func(s Sess) string { return vgen.Pair(s.Kind, s.Outcome) }) + " " +
 			vgen.ListOf(tr, func(x te) string { return vgen.Pair(vgen.Nat(x.t), x.e) }) + " " + vgen.Nat(o.Real)
 	}
+	if len(c.Sessions) == 1 && c.Sessions[0].Outcome == "FailedRetryable" {
+		s := c.Sessions[0]
+		return "Failed " + s.Kind + " " + failureName(s.Err) + " " + vgen.Bool(s.Answer) + " " + shareName(s.Share) + " " + led + " " + vgen.Nat(o.Real)
+	}
 	if len(c.Sessions) == 1 {
 		s := c.Sessions[0]
 		return "Session " + s.Kind + " " + s.Outcome + " " + shareName(s.Share) + " " + led + " " + vgen.Nat(o.Real)
 	}
 	return "Sequence " + vgen.ListOf(c.Sessions, func(s Sess) string {
-		return vgen.Pair(shareName(s.Share), vgen.Pair(s.Kind, s.Outcome))
+		return vgen.Pair(shareName(s.Share), vgen.Pair(s.Kind, coqOutcome(s)))
 	}) + " " + led + " " + vgen.Nat(o.Real)
 }
 
@@ -1059,6 +1114,18 @@ func kindOf(c Case) string {
 		}
 		if c.Sessions[0].Entry != "" {
 			k += "/entry-" + c.Sessions[0].Entry
+		}
+		if c.Sessions[0].Err != "" {
+			k += "/" + c.Sessions[0].Err
+		}
+		if c.Sessions[0].How != "" {
+			k += "/" + c.Sessions[0].How
+		}
+		if c.Sessions[0].Answer {
+			k += "/answered"
+		}
+		if c.Sessions[0].At != "" {
+			k += "/at-" + c.Sessions[0].At
 		}
 		return k
 	}
